@@ -1644,9 +1644,13 @@ def compile_function_def(compiler, expr, root, is_async, decorators, tp, name, p
     with compiler.local_state(), compiler.scope.create(ScopeFn, args, is_async) as scope:
         body = compiler._compile_branch(body)
 
-    return ret + compile_function_node(
+    ret += compile_function_node(
         compiler, expr, node, decorators, tp, name, args, returns, body, scope
     )
+    # `defn` returns `None`. Don't let `Result.rename` give the function
+    # the name of an enclosing assignment's target instead of its own.
+    ret.temp_variables = []
+    return ret
 
 
 def compile_function_node(compiler, expr, node, decorators, tp, name, args, returns, body, scope):
